@@ -12,4 +12,7 @@ PROFILE = {
 
 
 def run(ctx, res):
-    pipeprop.run(ctx, res, "C07", PROFILE, n_quick=400, n_thorough=6000, probe_ids=("F28",))
+    import scenarios
+    fam = [] if ctx.replay else scenarios.pick(scenarios.family_unions(), 300 if ctx.tier == "quick" else 10 ** 6, ctx.seed)
+    pipeprop.run(ctx, res, "C07", PROFILE, n_quick=300, n_thorough=6000, probe_ids=("F28",), extra_cases=fam)
+    res.coverage["scenario_grid"] = {"family": "unions (left x right incl. permuted / hidden same-name columns x distinct x follower)", "cases": len(fam)}
